@@ -255,6 +255,47 @@ fn main() {
         t
     });
 
+    // S12: context sums whose alignment multiplies a machine word by 10^g right at the word's limit: the coarser
+    // operand carries floor(2^B / 10^g) + {-1, 0, 1} (B = 32, 64, 128) at 32-bit word positions 0..2, the finer one
+    // all-ones words / 4*10^(g-1) / 10^g - 1, for EVERY gap g = 1..=40; same and opposite signs, both orders
+    run.bound("S12_critical_word_gaps", "1..=40");
+    run.par("S12 context sums at the word limits of a fused multiply-add", 40, |gi| {
+        let g = gi as u32 + 1;
+        let mut t = Tally::default();
+        let coarse = critical_word_ints(g, &[0, 1, 2]);
+        let fine: Vec<num_bigint::BigInt> = vec![
+            num_bigint::BigInt::from(u32::MAX),
+            num_bigint::BigInt::from(u64::MAX),
+            (num_bigint::BigInt::from(1) << 96) - 1,
+            pow10(g as u64 - 1) * 4,
+            pow10(g as u64) - 1,
+            pow10(g as u64 - 1) * 5,
+        ];
+        for ca in coarse.iter() {
+            for fb in fine.iter() {
+                for (sa, sb) in [(1i64, 1i64), (-1, -1), (1, -1)] {
+                    let a = Dec { n: ca * sa, s: -3 };
+                    let b = Dec { n: fb * sb, s: g as i128 - 3 };
+                    let (xa, xb) = (bd(&a), bd(&b));
+                    t.states += 1;
+                    for p in [1u64, 5, 19, 20, 40] {
+                        for m in MODES {
+                            for (e, swap) in [("Context::add_refs", false), ("Context::add_refs(ref,ref)", true), ("Context::add_refs_into", true)] {
+                                t.transitions += 1;
+                                t.nontrivial += 1;
+                                let v = if swap { check_sum(e, &b, &a, &xb, &xa, p, m) } else { check_sum(e, &a, &b, &xa, &xb, p, m) };
+                                if let Some(v) = v {
+                                    run.report(v);
+                                }
+                            }
+                        }
+                    }
+                }
+            }
+        }
+        t
+    });
+
     // S3b: cancellation: (c + tiny) + (-c): the exact sum is the tiny part, which must be rounded to p digits
     run.par("S3b context sums with cancelling leading digits", 100, |gi| {
         let g = gi as i128 + 1;
